@@ -180,3 +180,94 @@ Example C05_core_guards_nonvacuous :
   length (bind_file (chunk_of src_core)) = 43%nat /\
   forallb (fun o => negb (deviates_at_start (chunk_of src_core) o)) (bind_file (chunk_of src_core)) = true.
 Proof. vm_compute. repeat split. Qed.
+
+(* ================================================================== wide fragment (agent wide-fragment)
+   Model/ResolveWide.v, Spec/LuaScopeWide.v, Proofs/WideNarrow.v, Proofs/WideRun.v: `_G.name` reads / writes and plain
+   names inside table constructors, index expressions, method calls, `function t.f()` / `function t:m()`.  The wide
+   predicate, binder, traversal, text cut and request models are NEW functions; the theorems below say that each
+   coincides with its narrow counterpart where the narrow one is defined (so the legs may run the wide functions on
+   every program), and what `_G.name` resolves to at model level.  Model = code = reference on wide programs is decided
+   by correspondence (legs *.wide), not proved. *)
+From LH Require Import Model.ResolveWide Spec.LuaScopeWide Proofs.WideNarrow Proofs.WideRun.
+
+Theorem C05_wide_contains_fragment : forall b, in_fragment b = true -> in_wide b = true.
+Proof. exact in_fragment_in_wide. Qed.
+Print Assumptions C05_wide_contains_fragment.
+
+(* the wide reference binder is the narrow one on the narrow fragment *)
+Theorem C05_wide_binder_narrow : forall b, in_fragment b = true -> bind_file_wide b = bind_file b.
+Proof. exact bind_file_wide_narrow. Qed.
+Print Assumptions C05_wide_binder_narrow.
+
+(* the wide traversal is Scope.analyse on every chunk without a `_G.name` node and without an assignment to a member
+   chain `t.a = e` / `function t.f()` (has_w_block: the two constructs for which ResolveWide adds behaviour) - in
+   particular on the fragment *)
+Theorem C05_wide_traversal_no_G : forall b, has_w_block b = false -> analyse_wide b = analyse b.
+Proof. exact analyse_wide_no_g. Qed.
+Print Assumptions C05_wide_traversal_no_G.
+
+Theorem C05_wide_traversal_narrow : forall b, in_fragment b = true -> analyse_wide b = analyse b.
+Proof. exact analyse_wide_narrow. Qed.
+Print Assumptions C05_wide_traversal_narrow.
+
+(* the wide text cut on texts that pass the narrow guard (no square brackets): the same identifier, and no prediction
+   exactly where the narrow cut makes none or sees `_G.name` *)
+Theorem C05_wide_cut_narrow : forall bs off, text_ok bs = true -> cut_of_wcut (cut_name_wide bs off) = cut_name bs off.
+Proof. exact cut_name_wide_narrow. Qed.
+Print Assumptions C05_wide_cut_narrow.
+
+Theorem C05_wide_define_narrow : forall w f fi n line col,
+  define_at_wide false w f fi n line col = define_at w f fi n line col.
+Proof. exact define_at_wide_narrow. Qed.
+Print Assumptions C05_wide_define_narrow.
+
+(* request level, from file bytes: on a narrow workspace the wide and the narrow definition models never give two
+   different answers *)
+Theorem C05_wide_run_define_narrow : forall files f line0 col,
+  all_in_fragment files = true -> all_text_ok files = true ->
+  answers_agree (run_define_wide files f line0 col) (run_define files f line0 col).
+Proof. exact run_define_wide_narrow. Qed.
+Print Assumptions C05_wide_run_define_narrow.
+
+Theorem C05_wide_spec_occ_narrow : forall files f line0 col,
+  all_in_fragment files = true -> spec_occ_wide files f line0 col = spec_occ files f line0 col.
+Proof. exact spec_occ_wide_narrow. Qed.
+Print Assumptions C05_wide_spec_occ_narrow.
+
+(* `_G.name`: the file's own newest global entry of that name, else the single owner in the workspace, else nothing;
+   never a local, wherever the cursor stands *)
+Theorem C05_G_name_is_global : forall w f fi n line col,
+  resolve_at_wide true w f fi n line col =
+  match find_global_var (fi_globals fi) n with
+  | Some e => TGlobal f e
+  | None => match ws_global w n with WOne f' e => TGlobal f' e | WNone => TNone | WAmbig => TAmbig end
+  end.
+Proof. exact resolve_G_is_global. Qed.
+Print Assumptions C05_G_name_is_global.
+
+Theorem C05_G_name_never_local : forall w f fi n line col v, resolve_at_wide true w f fi n line col <> TLocal v.
+Proof. exact resolve_G_never_local. Qed.
+Print Assumptions C05_G_name_never_local.
+
+(* the traversal: an assignment to `_G.x` re-assigns or defines the GLOBAL x (entry at the key's Loc); the scopes are
+   untouched and the occurrence carries no local resolution *)
+Theorem C05_G_assignment_is_global : forall flv slv x xl st,
+  t_frames (assign_g flv slv x xl st) = t_frames st /\
+  exists o, t_occs (assign_g flv slv x xl st) = o :: t_occs st /\ o_name o = x /\ o_loc o = xl /\ o_res o = None /\
+            (t_globals (assign_g flv slv x xl st) = t_globals st /\ o_kind o = OAssign \/
+             t_globals (assign_g flv slv x xl st) = mkG x xl flv slv :: t_globals st /\ o_kind o = ODefineG).
+Proof. exact assign_g_global. Qed.
+Print Assumptions C05_G_assignment_is_global.
+
+(* non-vacuity / witness: a wide program outside the narrow fragment; `_G.x` under a local x is the global, plain x in a
+   table constructor / method call / function body the local; model = reference at all of these cursors *)
+Example C05_wide_witness :
+  all_in_wide w_wide = true /\ all_in_fragment w_wide = false /\
+  option_map s_bind (spec_occ_wide w_wide a_lua 2 7) = Some (BGlobal name_x) /\
+  option_map s_bind (spec_occ_wide w_wide a_lua 2 10) = Some (BLocal (snd l_def)) /\
+  run_define_wide w_wide a_lua 1 3 = ALocs [g_def] /\ run_define_wide w_wide a_lua 2 7 = ALocs [g_def] /\
+  run_define_wide w_wide a_lua 4 30 = ALocs [g_def] /\
+  run_define_wide w_wide a_lua 2 10 = ALocs [l_def] /\ run_define_wide w_wide a_lua 2 15 = ALocs [l_def] /\
+  run_define_wide w_wide a_lua 2 22 = ALocs [l_def] /\ run_define_wide w_wide a_lua 2 36 = ALocs [l_def] /\
+  run_define_wide w_wide a_lua 3 27 = ALocs [l_def].
+Proof. vm_compute. repeat split; reflexivity. Qed.
